@@ -780,6 +780,16 @@ class Ledger:
                 if _implies_ge(c, v, a, b):
                     return "guarded: dominated by `%s` = %s, operands unchanged" % (expr_str(c, 80), v)
             # a - const with a's lower bound from an equality/greater guard is interval's job
+        if site.kind == "bounds" and len(site.operands) == 2:
+            # chunk[k] with k a constant below the constant chunk size of the chunks_exact(n) iterator that produced `chunk`
+            raw = fn.term(site.bb).get("ops", [])
+            if len(raw) == 2:
+                ln, ix = fn.expr(raw[0], 16), fn.expr(raw[1], 6)
+                if ix[0] == "const" and isinstance(ix[1], int):
+                    for x in expr_walk(ln):
+                        if x[0] == "call" and str(x[1]).endswith("chunks_exact") and len(x[2]) == 2 and x[2][1][0] == "const" and isinstance(x[2][1][1], int):
+                            if ix[1] < x[2][1][1] and "next(" in expr_str(ln, 600):
+                                return "guarded: element of chunks_exact(%d), index %d" % (x[2][1][1], ix[1])
         if site.kind == "index" and len(site.operands) >= 2:
             # v[i] where i is the Some-payload of v.iter().position(..): position only returns indices of existing elements
             base = kit.strip_refs(_deref_target(site.operands[0]))
